@@ -3,7 +3,7 @@
  * the map cursor of the tombstone GC loop, loop contracts. */
 _Static_assert(ReadMode_Async == 0, "ReadMode::Async is the value-initialised ReadMode");
 typedef struct { int code; } iora_errinfo;      /* const TransportErrorInfo &reason: the code (message text dropped, R20) */
-Impl *G_impl; size_t G_arrived;
+Impl *G_impl; size_t G_arrived; SessionId G_closing_sid;        /* ghost: the session whose close is being handled */
 
 /* ---- "other key" havoc of the witness-key maps ---- */
 static inline void iora_rmmap_havoc_other(iora_rmmap *m) { m->other = nondet_u8(); }
@@ -70,7 +70,13 @@ static inline SyncReceiveBuffer *iora_rbcur_second(const iora_rbcur *c)
 /* it = m.erase(it): removes the entry at the cursor, the cursor then stands on the next entry */
 static inline void iora_rbcur_erase(iora_rbmap *m, iora_rbcur *c)
 { IORA_GMAP1_GUARDED(m); IORA_ASSERT(c->k < c->N, "erase(iterator): dereferenceable iterator");
-  if (c->k == c->wpos) m->present = 0;
+  if (c->k == c->wpos)
+  {
+    const SyncReceiveBuffer *w = m->wval;
+    IORA_ASSERT(m->wkey != G_closing_sid && w->closed && !w->hasData && w->data.lo == w->data.hi && w->waiters == 0 && !w->flushing,
+                "GCW the tombstone GC erases an entry only if it is closed, has NO UNDRAINED DATA (hasData false, buffer empty), no parked waiter, no flush in progress, and is not the closing session's own entry");
+    m->present = 0;
+  }
   c->k++; iora_rbcur_load(c); }
 static inline void iora_rbcur_next(iora_rbcur *c) { IORA_ASSERT(c->k < c->N, "++ on an iterator that is not end()"); c->k++; iora_rbcur_load(c); }
 
